@@ -4,6 +4,8 @@ import (
 	"encoding/json"
 	"fmt"
 	"io"
+	"regexp"
+	"runtime"
 	"sort"
 	"strings"
 	"sync"
@@ -295,7 +297,7 @@ func (e *Engine) drain() {
 func (e *Engine) stepOnce() bool {
 	synctest.Wait()
 	if e.budget <= 0 {
-		e.fail(OutBudget, "scheduler step budget exhausted at "+strings.Join(simrt.RunnableSites(), ","))
+		e.fail(OutBudget, "scheduler step budget exhausted; "+deepestCycle()+" at "+strings.Join(simrt.RunnableSites(), ","))
 		return false
 	}
 	if !simrt.Step() {
@@ -828,4 +830,40 @@ func runInBubble(t *testing.T, sc *Scenario, cfg simrt.Config, hooks Hooks, res 
 			res.Detail = strings.Join(res.Stats.Recovered, " ;; ")
 		}
 	})
+}
+
+
+var stackFrameRe = regexp.MustCompile(`(?m)^(luahelper-lsp/[^\s(]+(?:\([^)]*\))?[^\s(]*)\(`)
+
+// deepestCycle names the functions of the deepest server stack (the runaway recursion when a
+// run exhausts its step budget): the sorted set of distinct functions among its innermost 80
+// server frames.
+func deepestCycle() string {
+	buf := make([]byte, 8<<20)
+	buf = buf[:runtime.Stack(buf, true)]
+	best := ""
+	bestN := 0
+	for _, g := range strings.Split(string(buf), "\n\n") {
+		n := strings.Count(g, "\n")
+		if strings.Contains(g, "luahelper-lsp/") && n > bestN {
+			best, bestN = g, n
+		}
+		if strings.Contains(g, "frames elided") {
+			best, bestN = g, 1<<30
+		}
+	}
+	seen := map[string]bool{}
+	var fns []string
+	for i, m := range stackFrameRe.FindAllStringSubmatch(best, 80) {
+		if i >= 80 {
+			break
+		}
+		f := m[1][strings.LastIndex(m[1], "/")+1:]
+		if !seen[f] {
+			seen[f] = true
+			fns = append(fns, f)
+		}
+	}
+	sort.Strings(fns)
+	return "cycle{" + strings.Join(fns, ",") + "}"
 }
